@@ -315,7 +315,18 @@ func (x *Exec) storeObj(st *State, kind string, root types.Type, ref, idx Term, 
 func (x *Exec) loadObj(st *State, kind string, root types.Type, ref, idx Term, prefix string, vt types.Type) Value {
 	v := buildValue(vt, func(l Leaf) Term {
 		p := join(prefix, l.Path)
-		_, arr := x.heapLeaf(st, kind, root, p, l.Sort)
+		hk, arr := x.heapLeaf(st, kind, root, p, l.Sort)
+		if l.Sort == SInt {
+			if lo, _, ok := intRange(l.Typ); ok && lo == "0" {
+				if _, opq := isOpaque(l.Typ); !opq {
+					if kind == "A" {
+						x.unsignedFam[sanitize(hk)] = 2
+					} else {
+						x.unsignedFam[sanitize(hk)] = 1
+					}
+				}
+			}
+		}
 		var tm Term
 		if kind == "A" {
 			tm = Select(Select(arr, ref), idx)
